@@ -388,10 +388,33 @@ Proof.
 Qed.
 
 (* ================================================================ one_vs_all *)
+(* the entries outside row j and column j: population - row j - column j + the diagonal cell counted twice *)
+Lemma sumQ_remove_nth j l : sumQ (remove_nth j l) == sumQ l - nth j l 0.
+Proof.
+  revert j. induction l as [|x r IH]; intros [|j]; simpl; try ring. rewrite IH. ring.
+Qed.
+Lemma map_remove_nth {A B} (f : A -> B) j l : map f (remove_nth j l) = remove_nth j (map f l).
+Proof. revert j. induction l as [|x r IH]; intros [|j]; simpl; try reflexivity. now rewrite IH. Qed.
+Lemma sumQ_map_minus {A} (f g : A -> Q) l : sumQ (map (fun x => f x - g x) l) == sumQ (map f l) - sumQ (map g l).
+Proof. induction l as [|x r IH]; simpl; [ring|rewrite IH; ring]. Qed.
+Lemma total_others M j : total (others M j) == total M - row_sum M j - col_sum M j + entry M j j.
+Proof.
+  unfold total, others. rewrite map_remove_nth, map_map, sumQ_remove_nth.
+  rewrite (sumQ_map_ext (fun r => sumQ (remove_nth j r)) (fun r => sumQ r - nth j r 0) M)
+    by (intros; apply sumQ_remove_nth).
+  rewrite sumQ_map_minus.
+  assert (E : nth j (map (fun r => sumQ (remove_nth j r)) M) 0 = sumQ (remove_nth j (nth j M [])))
+    by exact (map_nth (fun r => sumQ (remove_nth j r)) M [] j).
+  rewrite E, sumQ_remove_nth.
+  unfold row_sum, col_sum, entry. ring.
+Qed.
+
 Theorem ova_one_facts M j :
   msum (ova_one M j) == total M /\ tp (ova_one M j) = entry M j j /\
   p (ova_one M j) == row_sum M j /\ top (ova_one M j) == col_sum M j.
-Proof. unfold ova_one, msum, tp, p, top. simpl. repeat split; try ring. Qed.
+Proof.
+  unfold ova_one, msum, tp, p, top. simpl. rewrite total_others. repeat split; try ring.
+Qed.
 Lemma one_vs_all_length M n : length (one_vs_all M n) = n.
 Proof. unfold one_vs_all. now rewrite map_length, seq_length. Qed.
 Lemma one_vs_all_nth M n j d : (j < n)%nat -> nth j (one_vs_all M n) d = ova_one M j.
@@ -399,7 +422,8 @@ Proof.
   intro H. unfold one_vs_all. rewrite (nth_map_in (ova_one M) (seq 0 n) 0%nat d j) by (now rewrite seq_length).
   now rewrite seq_nth.
 Qed.
-(* non-negative matrix: the 2x2 matrices are non-negative too (so C04 applies to them) *)
+(* non-negative matrix: the 2x2 matrices are non-negative too, so every per-class rate lies in [0,1] (C04) *)
+Definition mat_nonneg (M : mat) : Prop := Forall (Forall (fun x => 0 <= x)) M.
 Lemma sumQ_nonneg l : Forall (fun x => 0 <= x) l -> 0 <= sumQ l.
 Proof. induction 1 as [|x r Hx _ IH]; simpl; lra. Qed.
 Lemma sumQ_ge_nth l k : Forall (fun x => 0 <= x) l -> nth k l 0 <= sumQ l.
@@ -407,6 +431,41 @@ Proof.
   intro H. revert k. induction H as [|x r Hx Hr IH]; intros [|k]; simpl; try lra.
   - pose proof (sumQ_nonneg r Hr). lra.
   - specialize (IH k). lra.
+Qed.
+Lemma Forall_remove_nth {A} (P : A -> Prop) j l : Forall P l -> Forall P (remove_nth j l).
+Proof. intro H. revert j. induction H as [|x r Hx Hr IH]; intros [|j]; simpl; auto. Qed.
+Lemma nth_nonneg l k : Forall (fun x => 0 <= x) l -> 0 <= nth k l 0.
+Proof. intro H. revert k. induction H as [|x r Hx Hr IH]; intros [|k]; simpl; auto; lra. Qed.
+Lemma row_nonneg M j : mat_nonneg M -> Forall (fun x => 0 <= x) (nth j M []).
+Proof. intro H. revert j. induction H as [|r M' Hr _ IH]; intros [|j]; simpl; auto. Qed.
+Theorem ova_one_nonneg M j : mat_nonneg M -> nonneg (ova_one M j).
+Proof.
+  intro H. unfold nonneg, ova_one. simpl. repeat split.
+  - apply nth_nonneg, row_nonneg, H.
+  - unfold row_sum, entry. pose proof (sumQ_ge_nth (nth j M []) j (row_nonneg M j H)). lra.
+  - unfold col_sum, entry.
+    assert (Hc : Forall (fun x => 0 <= x) (map (fun r => nth j r 0) M)).
+    { apply Forall_forall. intros x Hx. apply in_map_iff in Hx. destruct Hx as (r & <- & Hr).
+      apply nth_nonneg. unfold mat_nonneg in H. rewrite Forall_forall in H. now apply H. }
+    pose proof (sumQ_ge_nth _ j Hc) as K.
+    destruct (Nat.lt_ge_cases j (length M)) as [L|L].
+    + rewrite (nth_map_in (fun r => nth j r 0) M [] 0 j L) in K. lra.
+    + rewrite (nth_overflow M [] L). destruct j; simpl; pose proof (sumQ_nonneg _ Hc); lra.
+  - unfold total. apply sumQ_nonneg. apply Forall_forall. intros x Hx. apply in_map_iff in Hx.
+    destruct Hx as (r & <- & Hr). apply sumQ_nonneg. unfold others in Hr.
+    assert (Hall : mat_nonneg (remove_nth j (map (remove_nth j) M))).
+    { apply Forall_remove_nth. apply Forall_forall. intros y Hy. apply in_map_iff in Hy.
+      destruct Hy as (r0 & <- & Hr0). apply Forall_remove_nth. unfold mat_nonneg in H. rewrite Forall_forall in H. now apply H. }
+    unfold mat_nonneg in Hall. rewrite Forall_forall in Hall. now apply Hall.
+Qed.
+(* every per-class rate of a non-negative matrix lies in [0,1] (or is NaN) *)
+Theorem per_class_rates_in01 M n0 : mat_nonneg M ->
+  Forall (fun m => in01 (tpr m) /\ in01 (fnr m) /\ in01 (tnr m) /\ in01 (fpr m) /\ in01 (ppv m) /\ in01 (npv m) /\
+                   in01 (fdr m) /\ in01 (for_ m) /\ in01 (topr m) /\ in01 (tonr m) /\ in01 (accuracy m) /\
+                   in01 (error_rate m)) (one_vs_all M n0).
+Proof.
+  intro H. unfold one_vs_all. apply Forall_forall. intros m Hm. apply in_map_iff in Hm.
+  destruct Hm as (j & <- & _). apply rates_in01. now apply ova_one_nonneg.
 Qed.
 
 (* ================================================================ permutation equivariance *)
@@ -444,7 +503,7 @@ Section Permute.
   Qed.
   Lemma ova_one_permute k : (k < n)%nat -> cm2_eq (ova_one (permute M sigma) k) (ova_one M (nth k sigma 0%nat)).
   Proof.
-    intro Hk. pose proof sigma_length as Hl. unfold cm2_eq, ova_one, msum. simpl.
+    intro Hk. pose proof sigma_length as Hl. unfold cm2_eq, ova_one. simpl. rewrite !total_others.
     rewrite entry_permute by lia. rewrite (row_sum_permute k Hk), (col_sum_permute k Hk), total_permute.
     repeat split; reflexivity.
   Qed.
@@ -659,15 +718,17 @@ Lemma c05_example_proof :
   assign_from_predictions classes samples = Some [[1; 3; 0]; [0; 1; 0 + 2 + 1]; [0; 0; 1#2]] /\
   implicit_classes samples = [0; 1; 2]%Z /\
   Permutation [1; 2; 0]%nat (seq 0 3) /\
-  one_vs_all [[1; 3; 0]; [0; 1; 3]; [0; 0; 1#2]] 3 =
-    [Build_cm2 1 (1 + (3 + (0 + 0)) - 1) (1 + (0 + (0 + 0)) - 1)
-       ((1 + (3 + (0 + 0))) + ((0 + (1 + (3 + 0))) + ((0 + (0 + ((1#2) + 0))) + 0)) -
-        (1 + (1 + (3 + (0 + 0)) - 1) + (1 + (0 + (0 + 0)) - 1) + 0));
-     ova_one [[1; 3; 0]; [0; 1; 3]; [0; 0; 1#2]] 1; ova_one [[1; 3; 0]; [0; 1; 3]; [0; 0; 1#2]] 2] /\
+  Forall2 cm2_eq (one_vs_all [[1; 3; 0]; [0; 1; 3]; [0; 0; 1#2]] 3)
+    [Build_cm2 1 3 0 (9#2); Build_cm2 1 3 3 (3#2); Build_cm2 (1#2) 0 3 5] /\
   map tpr (one_vs_all [[1; 3; 0]; [0; 1; 3]; [0; 0; 1#2]] 3) <> map tpr (one_vs_all (permute [[1; 3; 0]; [0; 1; 3]; [0; 0; 1#2]] [1; 2; 0]%nat) 3).
 Proof.
   cbv zeta. split; [repeat constructor; simpl; intuition; discriminate|]. split; [reflexivity|]. split; [reflexivity|].
   split; [apply Permutation_sym; change (seq 0 3) with [0;1;2]%nat;
           apply (perm_trans (l' := [1;0;2]%nat)); [apply perm_swap|apply perm_skip, perm_swap]|].
-  split; [reflexivity|]. vm_compute. discriminate.
+  split; [repeat constructor; vm_compute; reflexivity|]. vm_compute. discriminate.
 Qed.
+
+Lemma c05_tn_direct_sum_proof : forall M j,
+  tn (ova_one M j) = total (others M j) /\
+  total (others M j) == total M - row_sum M j - col_sum M j + entry M j j.
+Proof. intros M j. split; [reflexivity|apply total_others]. Qed.
